@@ -76,20 +76,20 @@ def run(prog, rep, tier):
     # callers (the analysis is interprocedural), where it is known what they are handed
     called = set()
     # the library as the property knows it; a module added later is reported in the notes, not judged
-    new_mods = sorted({f.module.name for f in prog.funcs.values() if f.module.name.startswith("sempler.") and f.module.name not in SCOPE_MODULES
-                       and f.module.name != "sempler.plot" and not f.module.name.startswith("sempler.test")})
+    new_mods = sorted({f.public_module.name for f in prog.funcs.values() if f.public_module.name.startswith("sempler.") and f.public_module.name not in SCOPE_MODULES
+                       and f.public_module.name != "sempler.plot" and not f.public_module.name.startswith("sempler.test")})
     if new_mods:
         rep.notes.append("modules outside the scope the property was stated for (not judged): %s" % ", ".join(new_mods))
-    funcs = [f for f in prog.funcs.values() if f.module.name in SCOPE_MODULES
+    funcs = [f for f in prog.funcs.values() if f.public_module.name in SCOPE_MODULES
              and not (f.name.startswith("_") and not f.name.startswith("__") and f.qname not in ("sempler.semi._bootstrap", "sempler.lganm._parse_interventions"))
              and not (f.cls and f.cls.startswith("_") and not f.cls.startswith("__"))]       # methods of private classes are internal: judged through the public callers that use them
     if tier == "thorough":
-        funcs += [f for f in prog.funcs.values() if f.module.name.startswith("drf")]
+        funcs += [f for f in prog.funcs.values() if f.public_module.name.startswith("drf")]
     O = OW.Own(prog)
     n_ret = 0
     n_entries = 0
     for f in sorted(funcs, key=lambda f: f.qname):
-        note_only = f.module.name.startswith("drf")
+        note_only = f.public_module.name.startswith("drf")
         try:
             summ, obj = OW.analyse_entry(O, f)
         except Inconclusive as e:
@@ -172,7 +172,7 @@ def run(prog, rep, tier):
     n_ctor = 0
     for (q, target, attr, val, rel, func) in O.rebinds:
         w = {"file": rel, "line": target.lineno, "function": q, "construct": norm(target)}
-        if func.module.name.startswith("drf"):
+        if func.public_module.name.startswith("drf"):
             continue
         if not is_model_class(prog, func):
             continue                 # helper classes (not the library's models) may keep state of their own
